@@ -11,7 +11,9 @@
 (***************************************************************************)
 EXTENDS Integers, Sequences, FiniteSets
 
-S0 == [k |-> "none", n |-> 0, cnt |-> 0, last |-> 0, ran |-> FALSE]
+\* off: the callback returns its invocation number + off (so the first result can be the zero value);
+\* now / life / dl: virtual clock, lifetime of Once's cache entry (0 = for ever) and its deadline
+S0 == [k |-> "none", n |-> 0, cnt |-> 0, last |-> 0, ran |-> FALSE, off |-> 0, now |-> 0, life |-> 0, dl |-> 0]
 R(ok, v, s) == [ok |-> ok, v |-> v, s |-> s, p |-> FALSE]
 O(st, res)  == [st |-> st, res |-> res]
 Max0(x)     == IF x < 0 THEN 0 ELSE x
@@ -22,12 +24,16 @@ AfterCall(s) == LET inv == IF s.n < 1 THEN 1 ELSE 0 IN
 \* Before(n): runs the callback on each of the first n calls and never again; later calls return
 \* the result of the last run (the zero value if it never ran)
 BeforeCall(s) == IF s.n >= 1
-                   THEN { O([s EXCEPT !.n = @ - 1, !.cnt = @ + 1, !.last = s.cnt + 1], R(TRUE, s.cnt + 1, <<1>>)) }
+                   THEN { O([s EXCEPT !.n = @ - 1, !.cnt = @ + 1, !.last = s.cnt + 1 + s.off], R(TRUE, s.cnt + 1 + s.off, <<1>>)) }
                    ELSE { O(s, R(TRUE, s.last, <<0>>)) }
 \* Once: a single run while the cache entry lives; every call returns that first result
-OnceCall(s) == IF ~s.ran
-                 THEN { O([s EXCEPT !.ran = TRUE, !.cnt = @ + 1, !.last = s.cnt + 1], R(TRUE, s.cnt + 1, <<1>>)) }
-                 ELSE { O(s, R(TRUE, s.last, <<0>>)) }
+\* ("for as long as its cache entry lives": past the entry's deadline it runs again; exactly at the
+\* deadline either answer is accepted)
+OnceRun(s)  == O([s EXCEPT !.ran = TRUE, !.cnt = @ + 1, !.last = s.cnt + 1 + s.off,
+                           !.dl = IF s.life > 0 THEN s.now + s.life ELSE 0], R(TRUE, s.cnt + 1 + s.off, <<1>>))
+OnceCall(s) == IF ~s.ran THEN { OnceRun(s) }
+               ELSE (IF s.dl = 0 \/ s.now <= s.dl THEN { O(s, R(TRUE, s.last, <<0>>)) } ELSE {})
+                    \cup (IF s.dl > 0 /\ s.now >= s.dl THEN { OnceRun(s) } ELSE {})
 
 \* Retry(n) with the failure pattern p (p[i] = 1: attempt i fails; attempts beyond the pattern fail):
 \* calls until success or n failures, never more than n times, not at all for n <= 0;
@@ -51,8 +57,10 @@ DelayOK(op, res) == LET r == RetryRes(op.a[1], SubSeq(op.a, 3, Len(op.a))) IN
 
 OutR(s, op, res) ==
     CASE op.n = "after_new"  -> { O([S0 EXCEPT !.k = "after", !.n = op.a[1]], R(TRUE, 0, <<>>)) }
-      [] op.n = "before_new" -> { O([S0 EXCEPT !.k = "before", !.n = op.a[1]], R(TRUE, 0, <<>>)) }
-      [] op.n = "once_new"   -> { O([S0 EXCEPT !.k = "once"], R(TRUE, 0, <<>>)) }
+      [] op.n = "before_new" -> { O([S0 EXCEPT !.k = "before", !.n = op.a[1], !.off = op.a[2]], R(TRUE, 0, <<>>)) }
+      [] op.n = "once_new"   -> { O([S0 EXCEPT !.k = "once", !.off = op.a[2],
+                                               !.life = IF Len(op.a) > 2 THEN op.a[3] ELSE 0], R(TRUE, 0, <<>>)) }
+      [] op.n = "tick"       -> { O([s EXCEPT !.now = @ + op.a[1]], R(TRUE, 0, <<>>)) }
       [] op.n = "call" -> (CASE s.k = "after" -> AfterCall(s) [] s.k = "before" -> BeforeCall(s)
                             [] s.k = "once" -> OnceCall(s) [] OTHER -> {})
       [] op.n = "retry"      -> IF ~res.p /\ RetryOK(op, res) THEN { O(s, res) } ELSE {}
